@@ -38,4 +38,4 @@ EXPLANATION = ("single-via driver UNDER CONTRACT (unit c13_single_via, Verus, ve
                "driver were found on the way (underflow, endless loop, more than k / duplicate routes, an answerable query failed by one spur search, looping routes, spur halves whose state restarted at zero) and repaired in /repo. "
                "Kernels by Kani: the similarity decision and the stop criterion complete over their domains; Yen: expression-level call-site obligation on the spur range + witnesses for one- and two-edge routes (two defects found and fixed)")
 NOT_DECIDED = ("that the first route is least-cost (C02 is not optimality); cos_similarity only as a composition (unit c13_cosine: cosine = dot(a, b) / (sqrt(sumsq a) * sqrt(sumsq b)) over ASSUMED helpers for its five HashMap/HashSet pipelines; symmetric); in the drivers the verdict is an uninterpreted deterministic function; "
-               "SearchAlgorithm::run_vertex_oriented (assumed to hand through run_a_star's trees); Yen: that no two routes have the same edge sequence and that no two are too similar (the driver accepts a candidate that is dissimilar to SOME accepted route; not decided); termination of the underlying searches; `chained` of the FIRST route is an assumption on the underlying search (a tree path whose vertex was re-labelled after its child was labelled is not chained: possible only with re-opening, i.e. not for Dijkstra); what is proved is that Yen's construction preserves it")
+               "SearchAlgorithm::run_vertex_oriented (assumed to hand through run_a_star's trees); Yen: that no two routes have the same edge sequence beyond what dissimilarity implies (no two routes are too similar IS decided: postcondition pairwise_dissim, failed on the pinned code, fixed a9f4484); termination of the underlying searches; `chained` of the FIRST route is an assumption on the underlying search (a tree path whose vertex was re-labelled after its child was labelled is not chained: possible only with re-opening, i.e. not for Dijkstra); what is proved is that Yen's construction preserves it")
